@@ -825,6 +825,29 @@ def _numeric(ctx):
             if got is None or any(abs(g - w) > 1e-4 + 1e-9 * abs(w) for g, w in zip(got, want)):
                 bad_r = bad_r or {'first base': list(b1), 'second base': list(b2), 'local coordinates in the first frame': list(e1),
                                   'returned (E, N, U)': list(got) if got else (r if not ok else repr(r)), 'expected in the second frame': list(want)}
+    # one base object (given as ECEFCoords, then as GeoCoords) used for several back-conversions in a row: each answer is that of a fresh
+    # base, and the caller's base object is left where it was
+    for base_kind in ('ECEFCoords', 'GeoCoords'):
+        b = BASES[0]
+        n_b += 1
+        locs = [(120.0, -45.5, 8.0), (-3000.0, 900.0, 40.0), (0.0, 0.0, 0.0)]
+
+        def reuse():
+            bobj = X(*ecef(*b)) if base_kind == 'ECEFCoords' else G(*b)
+            before = dict(bobj.fields)
+            outs = [E(*l_).call('toECEFCoords', bobj) for l_ in locs]
+            fresh = [E(*l_).call('toECEFCoords', X(*ecef(*b)) if base_kind == 'ECEFCoords' else G(*b)) for l_ in locs]
+            return before, dict(bobj.fields), [fields(o_, ('X', 'Y', 'Z')) for o_ in outs], [fields(o_, ('X', 'Y', 'Z')) for o_ in fresh]
+        ok, r = run(f_b, reuse)
+        if not ok:
+            bad_b = bad_b or {'history': 'one %s base object used for three local -> ECEF conversions' % base_kind, 'failure': r}
+        else:
+            before, after, outs, fresh = r
+            same_ = all(o_ is not None and f_ is not None and all(abs(x_ - y_) <= 1e-6 for x_, y_ in zip(o_, f_)) for o_, f_ in zip(outs, fresh))
+            if not same_ or any(before.get(k_) != after.get(k_) for k_ in before if isinstance(before.get(k_), (int, float))):
+                bad_b = bad_b or {'history': 'one %s base object used for three local -> ECEF conversions in a row' % base_kind, 'local points': [list(l_) for l_ in locs],
+                                  'returned': [list(o_) if o_ else None for o_ in outs], 'with a fresh base each time': [list(f_) if f_ else None for f_ in fresh],
+                                  'base before': {k_: v_ for k_, v_ in before.items() if isinstance(v_, (int, float))}, 'base after': {k_: v_ for k_, v_ in after.items() if isinstance(v_, (int, float))}}
     out['R'] = (f_r, bad_r, n_r)
     out['B'] = (f_b, bad_b, n_b)
     # L: Lambert-93 (IGN constants), forward closed form and back
